@@ -319,7 +319,7 @@ func lookup(instr *ssa.Lookup, x, idx value) value {
 		var ok bool
 		switch x := x.(type) {
 		case map[value]value:
-			v, ok = x[idx]
+			v, ok = x[mapKey(idx)]
 		case *hashmap:
 			v = x.lookup(idx.(hashable))
 			ok = v != nil
@@ -983,8 +983,8 @@ func callBuiltin(caller *frame, callpos token.Pos, fn *ssa.Builtin, args []value
 			return arg0
 		}
 		if st, ok := args[1].(symStr); ok {
-			if st.kind == "int" {
-				return append(args[0].([]value), opaqueRun{"intstr", st.t})
+			if e, ok := strElems(st); ok {
+				return append(args[0].([]value), e...)
 			}
 			panic(unsupported("append([]byte, opaque string...)"))
 		}
@@ -1024,7 +1024,7 @@ func callBuiltin(caller *frame, callpos token.Pos, fn *ssa.Builtin, args []value
 	case "delete": // delete(map[K]value, K)
 		switch m := args[0].(type) {
 		case map[value]value:
-			delete(m, args[1])
+			delete(m, mapKey(args[1]))
 		case *hashmap:
 			m.delete(args[1].(hashable))
 		default:
@@ -1051,6 +1051,19 @@ func callBuiltin(caller *frame, callpos token.Pos, fn *ssa.Builtin, args []value
 		switch x := args[0].(type) {
 		case string:
 			return len(x)
+		case symStr:
+			for _, e := range x.bytes {
+				if _, isRun := e.(opaqueRun); isRun {
+					panic(unsupported("len of text containing the rendering of a symbolic integer"))
+				}
+			}
+			switch x.kind {
+			case "hex":
+				return 2 * len(x.bytes)
+			case "bytes":
+				return len(x.bytes)
+			}
+			panic(unsupported("len of an opaque string"))
 		case array:
 			return len(x)
 		case *value:
@@ -1200,8 +1213,10 @@ func conv(i *interpreter, t_dst, t_src types.Type, x value) value {
 		}
 		if st, ok := x.(symStr); ok {
 			if sl, isSlice := t_dst.Underlying().(*types.Slice); isSlice {
-				if bt, isB := sl.Elem().Underlying().(*types.Basic); isB && bt.Kind() == types.Uint8 && st.kind == "int" {
-					return []value{opaqueRun{"intstr", st.t}}
+				if bt, isB := sl.Elem().Underlying().(*types.Basic); isB && bt.Kind() == types.Uint8 {
+					if e, ok := strElems(st); ok {
+						return append([]value{}, e...)
+					}
 				}
 			}
 		}
@@ -1255,7 +1270,7 @@ func conv(i *interpreter, t_dst, t_src types.Type, x value) value {
 			for k := range x {
 				c, ok := x[k].(byte)
 				if !ok {
-					return i.newSymStr("string(bytes)")
+					return i.strFromElems(x)
 				}
 				b = append(b, c)
 			}
